@@ -44,6 +44,30 @@ def heap_cex(op, cls, model=None, obligation=None, kinds=None, **_):
   import ttconv.model as m
   from ttconv.isd import ISD
   from specs import modelwf as W
+  if op == "push_children_rollback":
+    # constants of the harness: a valid pattern whose child `bad` has a parent already / belongs to another document
+    pattern, bad, why = _["pattern"], _["bad"], _["why"]
+    doc, other = m.ContentDocument(), m.ContentDocument()
+    owner = getattr(m, cls)(doc)
+    kids = [getattr(m, k)(other if (j == bad and why == "other-document") else doc) for j, k in enumerate(pattern)]
+    if why == "has-parent":
+      holder = {"Rb": m.Rbc, "Rt": m.Rtc, "Rp": m.Rtc, "Rbc": m.Ruby, "Rtc": m.Ruby}[pattern[bad]](doc)
+      if isinstance(holder, m.Ruby):
+        holder.push_children([kids[bad], m.Rtc(doc)] if pattern[bad] == "Rbc" else [m.Rbc(doc), kids[bad]])
+      elif isinstance(holder, m.Rtc):
+        holder.push_children([kids[bad]] if pattern[bad] == "Rt" else [kids[bad], m.Rt(doc), m.Rp(doc)])
+      else:
+        holder.push_child(kids[bad])
+    try:
+      owner.push_children(kids)
+      raised = None
+    except Exception as e:  # pylint: disable=broad-except
+      raised = e
+    got = [type(x).__name__ for x in owner]
+    stray = [type(k).__name__ for j, k in enumerate(kids) if j != bad and k.parent() is not None]
+    text = (f"{cls}.push_children({pattern}) with child {bad} {'already under another parent' if why == 'has-parent' else 'of another document'}: "
+            f"raised {raised!r}; children of the {cls.lower()} afterwards {got}; other children left attached {stray}")
+    return (raised is None) or bool(got) or bool(stray), text
   if op == "push_children" and _.get("pattern") is not None:
     # the classes of the children are constants of the harness: the call is replayed on fresh, detached children of one document
     pattern = _["pattern"]
